@@ -177,6 +177,50 @@ func markedUnderLock(dir, key, field, callRe string) bool {
 	return seen && len(w.bad) == 0
 }
 
+// guardedUnderLock: on every control-flow path, every call matching callRe happens while the mutex field is held AND
+// a call matching guardRe (the closed test) has been evaluated since that acquisition — the test and the send are
+// in ONE critical section.
+func guardedUnderLock(dir, key, field, guardRe, callRe string) bool {
+	cr, gr := regexp.MustCompile(callRe), regexp.MustCompile(guardRe)
+	w := &lockWalker{dir: dir, classes: map[string]int{field: 0}, listed: map[string]string{}, stack: map[string]bool{}, cache: map[string][][]lockEv{}}
+	w.markerOf = func(n ast.Node) (int, bool) {
+		if c, ok := n.(*ast.CallExpr); ok {
+			t := show(c.Fun) + "("
+			if cr.MatchString(t) {
+				return 100, true
+			}
+			if gr.MatchString(t) {
+				return 101, true
+			}
+		}
+		return 0, false
+	}
+	seen := false
+	for _, p := range w.fnPrograms(key) {
+		held, guarded := 0, false
+		for _, e := range p {
+			switch {
+			case e.cls == 101:
+				if held > 0 {
+					guarded = true
+				}
+			case e.cls == 100:
+				seen = true
+				if held <= 0 || !guarded {
+					return false
+				}
+			case e.acq:
+				held++
+				guarded = false
+			default:
+				held--
+				guarded = false
+			}
+		}
+	}
+	return seen && len(w.bad) == 0
+}
+
 func factsSender() {
 	g := "Sender"
 	w := fnOf(mx, "Stream.Write")
@@ -199,6 +243,10 @@ func factsSender() {
 	boolFact(g, "lockWrite", wholeBodyLocked(we, reWLock, reWUnlock) && callsUnderLock(we, reWLock, reWUnlock, send), "Stream.Write: Lock; defer Unlock open the body (closed test and every obfuscateAndSend call in one critical section)")
 	boolFact(g, "lockReadFrom", callsUnderLock(re, reWLock, reWUnlock, send) || markedUnderLock(mx, "Stream.ReadFrom", "writingM", send),
 		"Stream.ReadFrom: every obfuscateAndSend call is under writingM (on every control-flow path)")
+	boolFact(g, "readFromChkUnderLock", guardedUnderLock(mx, "Stream.ReadFrom", "writingM", `\.isClosed\(`, send),
+		"Stream.ReadFrom: the closed test that precedes each obfuscateAndSend is made under writingM, in the same critical section (every path)")
+	boolFact(g, "writeChkUnderLock", guardedUnderLock(mx, "Stream.Write", "writingM", `\.isClosed\(`, send),
+		"Stream.Write: the closed test and every obfuscateAndSend are in one critical section (every path)")
 	// Close: the active closeStream call is under writingM, and closeStream sends only in its `if active` branch
 	closeLocked := wholeBodyLocked(ce, reWLock, reWUnlock) && callsUnderLock(ce, reWLock, reWUnlock, `\.closeStream\(`)
 	iIf := idx(cse, 0, "if", `^active$`)
